@@ -42,11 +42,11 @@ fn realpath(p: &Path) -> Option<PathBuf> {
 pub fn reference_walk(
     roots: &[PathBuf],
     o: &WalkOpts,
-    ignored: &dyn Fn(&Path, bool) -> bool,
+    ignored: &dyn Fn(&Path, &Path, bool) -> bool,
     select: &dyn Fn(&Path) -> bool,
 ) -> Vec<SelFile> {
     let mut out: BTreeMap<Vec<u8>, SelFile> = BTreeMap::new();
-    let mut visited: BTreeSet<PathBuf> = BTreeSet::new();
+    let mut visited: BTreeSet<(PathBuf, usize)> = BTreeSet::new();
     for r in roots {
         // a root is canonicalised; for a file root only its parent is
         let meta = match std::fs::metadata(r) {
@@ -71,20 +71,23 @@ pub fn reference_walk(
             use std::os::unix::fs::MetadataExt;
             meta.dev()
         };
-        visit(&root, 0, dev, o, ignored, select, &mut visited, &mut out);
+        // directories entered are remembered per walk (symlink cycles); which route reaches a
+        // directory first must not matter, so the set is keyed by (directory, level)
+        visit(&root, &root, 0, dev, o, ignored, select, &mut visited, &mut out);
     }
     out.into_values().collect()
 }
 
 #[allow(clippy::too_many_arguments)]
 fn visit(
+    root: &Path,
     p: &Path,
     level: usize,
     dev: u64,
     o: &WalkOpts,
-    ignored: &dyn Fn(&Path, bool) -> bool,
+    ignored: &dyn Fn(&Path, &Path, bool) -> bool,
     select: &dyn Fn(&Path) -> bool,
-    visited: &mut BTreeSet<PathBuf>,
+    visited: &mut BTreeSet<(PathBuf, usize)>,
     out: &mut BTreeMap<Vec<u8>, SelFile>,
 ) {
     use std::os::unix::fs::MetadataExt;
@@ -96,10 +99,7 @@ fn visit(
             }
         }
     }
-    if o.follow_links && !visited.insert(p.to_path_buf()) {
-        return;
-    }
-    if ignored(p, lm.is_dir()) {
+    if ignored(root, p, lm.is_dir()) {
         return;
     }
     let ft = lm.file_type();
@@ -115,11 +115,16 @@ fn visit(
         if o.one_fs && lm.dev() != dev {
             return;
         }
+        // a directory is listed at most once per level it is reached at (terminates on cycles:
+        // levels only grow along a route and are bounded by the depth or by the path length limit)
+        if o.follow_links && (!visited.insert((p.to_path_buf(), level)) || level > 64) {
+            return;
+        }
         let Ok(rd) = std::fs::read_dir(p) else { return };
         let mut names: Vec<PathBuf> = rd.filter_map(|e| e.ok()).map(|e| e.path()).collect();
         names.sort();
         for n in names {
-            visit(&n, level + 1, dev, o, ignored, select, visited, out);
+            visit(root, &n, level + 1, dev, o, ignored, select, visited, out);
         }
     } else if ft.is_symlink() {
         if !o.follow_links && !o.symbolic_links {
@@ -132,14 +137,18 @@ fn visit(
             if o.one_fs && tm.dev() != dev {
                 return;
             }
+            // one hop at a time: every entry on the way (also an intermediate link) is an entry
+            // that is visited, so e.g. the hidden-name rule applies to it
+            let Ok(link) = std::fs::read_link(p) else { return };
+            let next = if link.is_absolute() { link } else { p.parent().map(|d| d.join(&link)).unwrap_or(link) };
             if tm.is_file() {
-                // the final regular file, under its real path
-                if let Some(t) = realpath(p) {
-                    visit(&t, level, dev, o, ignored, select, visited, out);
+                // a file (or a further link to one): its directory made canonical, its own name kept
+                if let (Some(parent), Some(name)) = (next.parent().and_then(realpath), next.file_name()) {
+                    visit(root, &parent.join(name), level, dev, o, ignored, select, visited, out);
                 }
             } else if tm.is_dir() {
-                if let Some(t) = realpath(p) {
-                    visit(&t, level, dev, o, ignored, select, visited, out);
+                if let Some(t) = realpath(&next) {
+                    visit(root, &t, level, dev, o, ignored, select, visited, out);
                 }
             }
         }
